@@ -36,6 +36,7 @@ tables at the top of this file):
 """
 import ast
 import copy
+import re
 
 from harness.gen import pysrc
 from harness.gen.pysrc import bad, dotted, Fn, EXN
@@ -46,6 +47,8 @@ CTOR_STATE = {"BaseIP": ("_value", "_module"), "IPAddress": ("_value", "_module"
 CTOR_METHODS = ("__init__", "__setstate__")
 OBJECT = "__object__"        # the synthetic `return __object__` that ends a constructor
 # isinstance(x, C) by the type of x: type -> the class names it is an instance of (every other listed name: not an instance)
+CORE_FLAGS = ("INET_PTON", "NOHOST", "ZEROFILL")       # int constants of netaddr/core.py, read from its text
+DICTS = ("prefix_to_netmask", "netmask_to_prefix", "prefix_to_hostmask", "hostmask_to_prefix")    # tables of the strategy modules
 CLASSES = ("_int_type", "_str_type", "tuple", "BaseIP", "IPAddress", "IPNetwork", "IPRange")
 INSTANCE = {"int": ("_int_type",), "str": ("_str_type",), "obj": ("BaseIP", "IPAddress"), "net": ("BaseIP", "IPNetwork"),
             "inttuple": ("tuple",), "tup": ("tuple",), "none": ()}
@@ -57,6 +60,17 @@ OPTIONAL = {"optint": "int", "optstr": "str"}
 
 def generate():
     return {}
+
+
+def core_const(name, node):
+    """the int literal that netaddr/core.py binds `name` to (its only top-level binding, possibly chained: P = INET_PTON = 1)"""
+    fn = "netaddr/core.py"
+    mod = pysrc.Module(fn)
+    ds = [a for a in mod.tree.body for n in ast.walk(a) if isinstance(n, ast.Name) and n.id == name and isinstance(n.ctx, ast.Store)]
+    if (len(ds) != 1 or not isinstance(ds[0], ast.Assign) or not all(isinstance(t, ast.Name) for t in ds[0].targets)
+            or pysrc.const_int(ds[0].value) is None or mod.imports.get(name)):
+        bad(node, "%s is not bound once, at top level, to an int literal" % name, fn)
+    return pysrc.const_int(ds[0].value)
 
 
 def tyname(ty):
@@ -170,6 +184,15 @@ class CtorFn(Fn):
                 return ("mod", "src_%s_version" % node.id[1:])
         if isinstance(node, ast.Name) and node.id == OBJECT:
             bad(node, "use of the constructor result")
+        if isinstance(node, ast.Name) and node.id not in env and node.id in CORE_FLAGS and self.mod.imports.get(node.id) == "netaddr.core." + node.id:
+            return ("int", str(core_const(node.id, node)))
+        if isinstance(node, ast.BinOp) and isinstance(node.op, ast.Mod) and isinstance(node.left, ast.Constant) and isinstance(node.left.value, str):
+            return self.format_(node, env)
+        if (isinstance(node, ast.Compare) and len(node.ops) == 1 and isinstance(node.ops[0], (ast.Eq, ast.NotEq))
+                and isinstance(node.left, ast.Name) and tyname(env.get(node.left.id, ("",))[0]) == "optint"):
+            b, h = self.int_(node.comparators[0], env), self.fresh()      # x == k for x : None or an int (None == k is False)
+            r = "(match %s with Some %s => (%s =? %s) | None => false end)" % (env[node.left.id][1], h, h, b)
+            return ("bool", r if isinstance(node.ops[0], ast.Eq) else "(negb %s)" % r)
         if isinstance(node, ast.Attribute):
             path = dotted(node)
             if path and path not in env and path not in self.attrs:
@@ -178,6 +201,8 @@ class CtorFn(Fn):
                     return self.modattr(node, env[head][1], tail)
                 if head in env and env[head][0] == "obj":
                     return self.objattr2(node, env[head][1], tail, env)
+                if head in env and env[head][0] == "net" and tail == "_module":
+                    return ("mod", "(nver %s)" % env[head][1])
                 parts = path.split(".")
                 for i in range(len(parts) - 1, 1, -1):               # self._start.<attribute> of an IPRange receiver
                     pre = ".".join(parts[:i])
@@ -193,8 +218,116 @@ class CtorFn(Fn):
             return ("bool", r if isinstance(node.ops[0], ast.In) else "(negb %s)" % r)
         return super().rhs(node, env)
 
+    def bool_(self, node, env):
+        if isinstance(node, ast.BinOp):                       # the truth value of an int expression (`if flags & NOHOST:`)
+            snap, pre0 = self.snapshot(), list(self.pre)
+            ty, t = self.ex(node, env)
+            if ty == "int":
+                return "(negb (%s =? 0))" % t
+            self.restore(snap)
+            self.pre = pre0
+        return super().bool_(node, env)
+
+    def format_(self, node, env):
+        """'..%s..%d..' % (a, b): the pieces joined by String.append (right-nested); an int argument prints as str(int) = '%d'"""
+        fmt = node.left.value
+        args = node.right.elts if isinstance(node.right, ast.Tuple) else [node.right]
+        pieces = fmt.replace("%s", "%d").split("%d")
+        if "%" in "".join(pieces) or len(pieces) != len(args) + 1 or any(not all(32 <= ord(c) < 127 for c in x) for x in pieces):
+            bad(node, "format string other than literal text with %s / %d")
+        specs = [fmt[i + 1] for i in range(len(fmt) - 1) if fmt[i] == "%"]
+        terms = []
+        for i, a in enumerate(args):
+            if pieces[i]:
+                terms.append("\"%s\"%%string" % pieces[i].replace('"', '""'))
+            ty, t = self.ex(a, env)
+            if ty == "int":
+                terms.append("(fmt_d %s)" % t)
+            elif ty == "str" and specs[i] == "s":
+                terms.append(t)
+            else:
+                bad(node, "%%%s of %s" % (specs[i], pysrc.show(ty)))
+        if pieces[-1]:
+            terms.append("\"%s\"%%string" % pieces[-1].replace('"', '""'))
+        out = terms[-1]
+        for t in reversed(terms[:-1]):
+            out = "(String.append %s %s)" % (t, out)
+        return ("str", out)
+
+    def variant_call(self, node, name, env):
+        """call of a module-level function that is translated in variants `name:variant` (by declared parameter types): keyword
+        arguments and defaults are put in positional order, the variant is chosen by the types of the arguments"""
+        g = self.mod.function(name)
+        names = [a.arg for a in g.args.args]
+        kw = {k.arg: k.value for k in node.keywords}
+        if None in kw or len(kw) != len(node.keywords) or len(node.args) > len(names) or any(k not in names[len(node.args):] for k in kw):
+            bad(node, "argument list of %s" % name)
+        dflt = dict(zip(names[len(names) - len(g.args.defaults):], g.args.defaults))
+        vals = []
+        for i, x in enumerate(names):
+            a = node.args[i] if i < len(node.args) else kw.get(x, dflt.get(x))
+            if a is None:
+                bad(node, "missing argument %s of %s" % (x, name))
+            vals.append(self.ex(a, env))
+        for k in self.visible_specs():
+            if k[0] is None and k[1].partition(":")[0] == name and ":" in k[1]:
+                want = [k[2].get(x, "int") for x in names]
+                if all(tyname(v[0]) == w or (tyname(v[0]), w) in (("tup", "inttuple"),) for v, w in zip(vals, want)):
+                    return self.generated(node, None, k[1], "", [(pysrc.parse_type(w), v[1][3] if v[0] == "obj" else v[1])
+                                                                for v, w in zip(vals, want)])
+        bad(node, "no variant of %s for arguments of types %s" % (name, ", ".join(pysrc.show(v[0]) for v in vals)))
+
+    def visible_specs(self):
+        out = list(self.tr.specs)
+        for o in pysrc.UNIT_SEES.get(self.tr.out, ()):
+            out += pysrc.BY_OUT[o].specs if o in pysrc.BY_OUT else []
+        return out
+
     def call(self, node, env):
         f = node.func
+        if isinstance(f, ast.Name) and f.id not in env and any(k[0] is None and k[1].startswith(f.id + ":") for k in self.visible_specs()):
+            return self.variant_call(node, f.id, env)
+        if isinstance(f, ast.Name) and f.id in getattr(self, "localfns", {}) and f.id not in env:
+            if node.keywords or len(node.args) != 1:
+                bad(node, "call of the inner function %s" % f.id)
+            ty, t = self.ex(node.args[0], env)
+            return self.generated(node, None, "%s.%s:%s" % (self.pyname, f.id, tyname(ty)), "", [(ty, t)])
+        if self.builtin_call(node, "len", env, 1) and isinstance(node.args[0], ast.Name) and env.get(node.args[0].id, ("",))[0] == "inttuple":
+            return ("int", "(Z.of_nat (List.length %s))" % env[node.args[0].id][1])
+        if self.builtin_call(node, "int", env, 1):
+            snap, pre0 = self.snapshot(), list(self.pre)
+            ty, t = self.ex(node.args[0], env)
+            if ty == "str":
+                return ("out", "int", "(py_int_o 10 %s)" % t)          # int(s): ValueError for text that is no decimal literal
+            if ty == "none":
+                return ("out", "int", "(Raise TypeError)")            # int(None)
+            self.restore(snap)
+            self.pre = pre0
+        if isinstance(f, ast.Attribute) and f.attr in ("split", "join") and not node.keywords and len(node.args) == 1:
+            snap, pre0 = self.snapshot(), list(self.pre)
+            (ta, a), (tb, b) = self.ex(f.value, env), self.ex(node.args[0], env)
+            if f.attr == "split" and ta == "str" and tb == "str" and isinstance(node.args[0], ast.Constant) and len(node.args[0].value) == 1:
+                return (("list", pysrc.Cell("str")), "(split \"%s\"%%char %s)" % (node.args[0].value, a))
+            if f.attr == "join" and ta == "str" and pysrc.is_list(tb) and tb[1].find().t == "str":
+                return ("str", "(join %s %s)" % (a, b))
+            self.restore(snap)
+            self.pre = pre0
+        if isinstance(f, ast.Attribute) and f.attr in ("int_to_str", "expand_partial_address") and not node.keywords:
+            m = ("mod", "ver") if dotted(f.value) == "self._module" and "self._module.version" in self.attrs else self.rhs(f.value, env)
+            if m[0] == "mod" and f.attr == "int_to_str" and len(node.args) == 1:
+                self.uses_be = True
+                return ("out", "str", "(py_int_to_str be %s %s)" % (m[1], self.int_(node.args[0], env)))
+            if m == ("mod", "src_ipv4_version") and f.attr == "expand_partial_address" and len(node.args) == 1:
+                ty, t = self.ex(node.args[0], env)
+                if ty != "str":
+                    bad(node, "expand_partial_address of %s" % pysrc.show(ty))
+                return ("out", "str", "(py_expand_partial_address %s)" % t)
+            bad(node, "call of %s" % f.attr)
+        if isinstance(f, ast.Attribute) and isinstance(f.value, ast.Name) and env.get(f.value.id, ("",))[0] == "obj" and not node.keywords and not node.args:
+            r = self.tr.modof("IPAddress").lookup("IPAddress", f.attr)
+            if r and not r[2]:
+                o = env[f.value.id][1]
+                return self.generated(node, "IPAddress", f.attr, " ".join(o[:3]), [])
         if isinstance(f, ast.Attribute) and f.attr in ("str_to_int",) and not node.keywords:
             snap, pre0 = self.snapshot(), list(self.pre)
             r = self.rhs(f.value, env)
@@ -209,6 +342,59 @@ class CtorFn(Fn):
             self.restore(snap)
             self.pre = pre0
         return super().call(node, env)
+
+    def subscript(self, node, env):
+        v = node.value
+        if isinstance(v, ast.Attribute) and v.attr in DICTS:              # module.<table>[k]: KeyError for a missing key
+            snap, pre0 = self.snapshot(), list(self.pre)
+            m = self.rhs(v.value, env)
+            if m[0] == "mod":
+                return ("out", "int", "(py_%s %s %s)" % (v.attr, m[1], self.int_(node.slice, env)))
+            self.restore(snap)
+            self.pre = pre0
+        if isinstance(v, ast.Name) and pysrc.is_list(env.get(v.id, ("",))[0]) and pysrc.const_int(node.slice) == 0:
+            ty, t = env[v.id]                                            # l[0]: IndexError for an empty list
+            e = ty[1].find().t
+            if e is not None and pysrc.is_value(e):
+                return ("out", e, "(py_list_head %s)" % t)
+        return super().subscript(node, env)
+
+    def what(self):
+        if self.recv is None and self.name != self.pyname:
+            return "%s, specialised to %s" % (self.pyname, ", ".join("%s : %s" % (cn, pysrc.show(ty)) for cn, ty in self.params))
+        return super().what()
+
+    def assign(self, s, env, go):
+        tgt = s.targets[0] if isinstance(s, ast.Assign) and len(s.targets) == 1 else None
+        if isinstance(tgt, ast.Tuple) and isinstance(s.value, ast.Tuple) and len(tgt.elts) == len(s.value.elts) and all(
+                isinstance(x, ast.Name) for x in tgt.elts):
+            # a, b = e1, e2 where no target is read by the values: one assignment after the other
+            if any(isinstance(n, ast.Name) and n.id in [x.id for x in tgt.elts] for v in s.value.elts for n in ast.walk(v)):
+                bad(s, "parallel assignment that reads its own targets")
+            stmts = [ast.copy_location(ast.Assign(targets=[x], value=v), s) for x, v in zip(tgt.elts, s.value.elts)]
+            return self.block(stmts, env, go, [])
+        if (isinstance(tgt, ast.Tuple) and len(tgt.elts) == 2 and all(isinstance(x, ast.Name) for x in tgt.elts) and isinstance(s.value, ast.Call)
+                and isinstance(s.value.func, ast.Attribute) and s.value.func.attr == "split" and len(s.value.args) == 2
+                and not s.value.keywords and pysrc.const_int(s.value.args[1]) == 1 and isinstance(s.value.args[0], ast.Constant)
+                and isinstance(s.value.args[0].value, str) and len(s.value.args[0].value) == 1):
+            ty, t = self.ex(s.value.func.value, env)                     # a, b = s.split(c, 1): ValueError unless two parts
+            if ty != "str":
+                bad(s, "split() of %s" % pysrc.show(ty))
+            pre = self.take_pre()
+            names = []
+            for x in tgt.elts:
+                cn, env = self.bind_local(x, x.id, "str", env, s.value)
+                names.append(cn)
+            return self.wrap(pre, ("bind", "(%s, %s)" % tuple(names), "(py_split1_pair \"%s\"%%char %s)" % (s.value.args[0].value, t), go(env)))
+        if (isinstance(tgt, ast.Tuple) and all(isinstance(x, ast.Name) for x in tgt.elts) and isinstance(s.value, ast.Name)
+                and env.get(s.value.id, ("",))[0] == "inttuple"):
+            t = env[s.value.id][1]                                       # a, b = <tuple of ints>: ValueError for another length
+            names = []
+            for x in tgt.elts:
+                cn, env = self.bind_local(x, x.id, "int", env, s.value)
+                names.append(cn)
+            return ("listmatch", t, names, go(env), ("raise", "ValueError"))
+        return super().assign(s, env, go)
 
     def generated(self, node, recv, name, state, args):
         r = super().generated(node, recv, name, state, args)
@@ -320,10 +506,25 @@ class CtorFn(Fn):
             a = self.block((s.body if some_is_true else s.orelse) + rest, senv, k, after)
             b = self.block((s.orelse if some_is_true else s.body) + rest, nenv, k, after)
             return ("optmatch", term, cn, a, b)
+        if any(isinstance(n, ast.Assign) and isinstance(n.value, ast.Constant) and n.value.value is None
+               for st in s.body + s.orelse for n in ast.walk(st)):
+            # a branch binds a name to None: no join (None is a compile-time binding), the rest of the block follows in both branches
+            c = self.bool_(s.test, env)
+            pre = self.take_pre()
+            return self.wrap(pre, ("if", c, self.block(s.body + rest, env, k, after), self.block(s.orelse + rest, env, k, after)))
         return super().if_(s, rest, env, k, after)
 
     # ---- statements
     def block(self, stmts, env, k, after):
+        if stmts and isinstance(stmts[0], ast.FunctionDef):
+            # an inner function that reads nothing of the enclosing one: translated on its own as `<outer>.<inner>:<variant>`
+            # (Module.function checks that it is closure-free and bound once); here only its name is noted
+            g = stmts[0]
+            self.mod.function("%s.%s" % (self.pyname, g.name))
+            if self.recv is not None or g.name in env:
+                bad(g, "inner function in a method / shadowing a local")
+            self.localfns = dict(getattr(self, "localfns", {}), **{g.name: g})
+            return self.block(list(stmts[1:]), env, k, after)
         if stmts and isinstance(stmts[0], ast.Try):
             r = self.try_match(stmts[0], list(stmts[1:]), env, k, after)
             if r is not None:
@@ -390,32 +591,55 @@ class CtorFn(Fn):
         for i in range(len(body), 0, -1):                            # the longest prefix that cannot raise runs before the try
             if self.pure(body[:i], env) and not any(isinstance(n, (ast.Return, ast.Break, ast.Continue))
                                                     for st in body[:i] for n in ast.walk(st)):
-                if i == len(body) and not s.orelse:
-                    return self.block(body + rest, env, k, after)     # nothing can raise: the handlers are dead
                 if i == len(body):
-                    return self.block(body + s.orelse + rest, env, k, after)
+                    return self.block(body + s.orelse + rest, env, k, after)     # nothing can raise: the handlers are dead
                 s2 = ast.copy_location(ast.Try(body=body[i:], handlers=s.handlers, orelse=s.orelse, finalbody=[]), s)
                 return self.block(body[:i] + [s2] + rest, env, k, after)
         if env["@mut"]:
             bad(s, "try after a state assignment")
-        if any(isinstance(n, (ast.Return, ast.Break, ast.Continue, ast.While, ast.For, ast.Try)) for st in body for n in ast.walk(st)):
-            bad(s, "try body with return / break / continue / loop / nested try")
+        if any(isinstance(n, (ast.Break, ast.Continue, ast.While, ast.For, ast.Try)) for st in body for n in ast.walk(st)):
+            bad(s, "try body with break / continue / loop / nested try")
+        has_ret = any(isinstance(n, ast.Return) for st in body for n in ast.walk(st))
+        if has_ret and (env["@break"] is not None or s.orelse):
+            bad(s, "try body with return inside a loop / with an else clause")
         for h in s.handlers:
             if h.name and any(isinstance(n, ast.Name) and n.id == h.name for st in h.body + rest + after for n in ast.walk(st)):
                 bad(s, "use of the exception variable %s" % h.name)
         names, ends = pysrc.assigned_names(body), []
+        last = body[-1]
+        lastonly = set(pysrc.assigned_names([last])) - set(pysrc.assigned_names(body[:-1])) if isinstance(last, ast.Assign) else set()
+        # in a handler: a name assigned only by the (plain) last statement of the body keeps its earlier binding
+        henv = {key: val for key, val in env.items() if key.startswith("@") or key not in names or key in lastonly}
+
+        def handler(h):
+            snap = self.snapshot()
+            try:
+                return self.block(h.body + rest, henv, k, after)
+            except pysrc.Untranslatable as e:
+                if "possibly unbound" not in str(e):
+                    raise
+                self.restore(snap)
+                return ("raise", "Unsupported")      # Python: UnboundLocalError on this path -- outside the model
 
         def end(e):
             ends.append(e)
             return ("jret", e)
-        last = body[-1]
         single = len(body) == 1 and isinstance(last, ast.Assign) and len(last.targets) == 1
+        rets = False
         if single:                                                   # try: x = <call>: the call itself is matched
             r = self.rhs(last.value, env)
             pre = self.take_pre()
             if r[0] != "out":
                 bad(s, "internal: a try body that cannot raise")
-            scrut, oenv = r[2], dict(env)
+            m = re.fullmatch(r"\(Raise (\w+)\)", r[2])
+            if m and not pre:                                        # the body always raises this exception: the handler is known
+                for h in s.handlers:
+                    hn = [] if h.type is None else [dotted(x) for x in h.type.elts] if isinstance(h.type, ast.Tuple) else [dotted(h.type)]
+                    self.catches(h, "_")
+                    if h.type is None or m.group(1) in hn:
+                        return handler(h)
+                return ("raise", m.group(1))
+            scrut, oenv = (("ir", self.wrap(pre, ("ret", "@loop", r[2], True))) if pre else r[2]), dict(env)
             tgt = last.targets[0]
             if isinstance(tgt, ast.Name) and (r[1] == "obj" or pysrc.is_value(r[1])):
                 cn, oenv = self.bind_local(tgt, tgt.id, r[1], oenv, last.value)
@@ -432,11 +656,16 @@ class CtorFn(Fn):
             else:
                 bad(s, "assignment inside try")
         else:
-            pre = []
-            bir = self.block(body, env, end, s.orelse + rest + after)
+            benv = dict(env)
+            if has_ret and any(not isinstance(st, (ast.Return, ast.Raise)) for st in [last]):
+                bad(s, "try body that returns on some paths only")      # (a body that always returns is matched on its value)
+            bir = self.block(body, benv, end, s.orelse + rest + after)
+            if has_ret and ends:
+                bad(s, "try body that returns on some paths only")
+            rets = has_ret
             exported = [x for x in names if ends and all(x in e and (pysrc.is_value(e[x][0]) or e[x][0] == "obj") for e in ends)]
             for key, val in env.items():
-                if not key.startswith("@") and key not in exported and any(e.get(key) != val for e in ends):
+                if not key.startswith("@") and key not in exported and key not in names and any(e.get(key) != val for e in ends):
                     bad(s, "%s is rebound inside try to something that is no Coq value" % key)
             oenv, cns = dict(env), []
             for x in names:
@@ -454,13 +683,33 @@ class CtorFn(Fn):
                 return tuple(close(x) if isinstance(x, tuple) and x and isinstance(x[0], str) else
                              [(kd, ns, close(sub)) for kd, ns, sub in x] if isinstance(x, list) else x for x in ir)
             scrut, pat = ("ir", close(bir)), pysrc.pattern(cns)
-        ok = self.block(s.orelse + rest, oenv, k, after)
-        # in a handler: a name assigned only by the (plain) last statement of the body keeps its earlier binding
-        lastonly = set(pysrc.assigned_names([last])) - set(pysrc.assigned_names(body[:-1])) if isinstance(last, ast.Assign) else set()
-        henv = {key: val for key, val in env.items() if key.startswith("@") or key not in names or key in lastonly}
+        if rets:                                                     # every path of the body returns (or raises): Ok r => r
+            pat = self.fresh()
+            ok = ("ret", self.retkind_of(scrut[1]), pat, False)
+        else:
+            ok = self.block(s.orelse + rest, oenv, k, after)
         evar = self.fresh()
-        arms = [(self.catches(h, evar), self.block(h.body + rest, henv, k, after)) for h in s.handlers]
-        return self.wrap(pre, ("trymatch", scrut, pat, ok, evar, arms))
+        arms = [(self.catches(h, evar), handler(h)) for h in s.handlers]
+        return ("trymatch", scrut, pat, ok, evar, arms)
+
+    def finish(self):
+        rets = [l for l in self.leaves(self.ir) if l[0] == "ret" and l[1] != "@loop"]
+        if not rets and not self.lrets and ":" in self.name:
+            # a variant all of whose paths raise: its result type is that of a sibling variant translated before it
+            for k in self.tr.specs:
+                if k[0] == self.recv and k[1] != self.name and k[1].partition(":")[0] == self.pyname and (k[0], k[1]) in self.tr.done:
+                    d = self.tr.done[(k[0], k[1])]
+                    self.kind = self.retkind = d.retkind
+                    self.optional, self.outcome, self.fresh = False, True, False
+                    self.type = "outcome " + pysrc.coqty(self.kind, self.f)
+                    return
+        super().finish()
+
+    def retkind_of(self, ir):
+        kinds = [l[1] for l in self.leaves(ir) if l[0] == "ret"]
+        if not kinds:
+            bad(self.f, "try body that neither returns nor falls through")
+        return kinds[0]
 
     def return_(self, s, env):
         if isinstance(s.value, ast.Name) and s.value.id == OBJECT and getattr(self, "is_ctor", False):
@@ -488,19 +737,23 @@ class CtorFn(Fn):
     def children(ir):
         if ir[0] == "optmatch":
             return [ir[3], ir[4]]
+        if ir[0] == "listmatch":
+            return [ir[3], ir[4]]
         if ir[0] == "trymatch":
             return ([ir[1][1]] if isinstance(ir[1], tuple) else []) + [ir[3]] + [a for _, a in ir[5]]
         return Fn.children(ir)
 
     def effects(self, ir):
-        return ir[0] == "trymatch" or super().effects(ir)
+        return ir[0] in ("trymatch", "listmatch") or super().effects(ir)
 
     def render(self, ir, ind, oc, optional=False):
         k = ir[0]
-        if k not in ("optmatch", "trymatch"):
+        if k not in ("optmatch", "trymatch", "listmatch"):
             return super().render(ir, ind, oc, optional)
         i2 = ind + "  "
         sub = lambda x, o=oc: self.render(x, i2, o, optional) if x[0] in ("ret", "raise", "jret", "lret") else "(" + self.render(x, i2 + " ", o, optional) + ")"
+        if k == "listmatch":
+            return "match %s with\n%s| [%s] =>\n%s%s\n%s| _ =>\n%s%s\n%send" % (ir[1], ind, "; ".join(ir[2]), i2, sub(ir[3]), ind, i2, sub(ir[4]), ind)
         if k == "optmatch":
             return "match %s with\n%s| Some %s =>\n%s%s\n%s| None =>\n%s%s\n%send" % (ir[1], ind, ir[2], i2, sub(ir[3]), ind, i2, sub(ir[4]), ind)
         _, scrut, pat, ok, evar, arms = ir
